@@ -73,7 +73,8 @@ def write_files(sc, work):
                   h=np.array(sc["H"], float), hc=0.0, Cs_r=np.array([num / den for num, den in cs_of(sc)]),
                   dx=(np.array(sc["dxarr"], float) if sc.get("dxarr") else sc.get("dx", 128.0) * (2.0 if (n > 0 and sc.get("grid_variant_in_later_files")) else 1.0)),
                   dy=(np.array(sc["dyarr"], float) if sc.get("dyarr") else sc.get("dy")),
-                  U=U, V=V, S=S, W=W, pack=((2.0 ** -10, 2.0 ** -9) if sc["pack"] else None),      # u and v packed with different scale factors
+                  # u and v packed with different scale factors, and differently in every file (the third file of a series is plain float)
+                  U=U, V=V, S=S, W=W, pack=([(2.0 ** -10, 2.0 ** -9), (2.0 ** -9, 2.0 ** -11), None][n % 3] if sc["pack"] else None),
                   spack=((0.5, 100.0) if sc.get("spack") else None))      # scalar packed with a non-trivial scale and offset
         names.append(name)
     return names
@@ -206,16 +207,17 @@ def time_scenario(rng):
     """C03 family: space-uniform field (only the time logic matters), arbitrary frame layout / file partition."""
     dt = rng.choice([30, 60, 600])
     imax, jmax, N = rng.choice([(6, 5, 2), (5, 6, 2), (6, 5, 3)])
-    nfr = rng.randrange(2, 7)
-    gaps = [rng.choice([1, 1, 2, 3, 4]) for _ in range(nfr - 1)]
+    many = rng.random() < 0.04                                   # now and then a long series: 12-30 frames, one or two per file
+    nfr = rng.randrange(12, 31) if many else rng.randrange(2, 7)
+    gaps = [rng.choice([1, 1, 2, 3, 4] if not many else [1, 1, 2]) for _ in range(nfr - 1)]
     fsteps = [0]
     for g in gaps:
         fsteps.append(fsteps[-1] + g)
     ftimes = [s * dt for s in fsteps]
     ncut = rng.randrange(0, min(3, nfr - 1) + 1)
     cuts = sorted(rng.sample(range(1, nfr), ncut)) if ncut else []
-    if rng.random() < 0.15:
-        cuts = list(range(1, nfr))            # one frame per file
+    if rng.random() < 0.15 or many:
+        cuts = list(range(1, nfr)) if (not many or rng.random() < 0.5) else list(range(2, nfr, 2))            # one frame per file (or two)
     a = rng.randrange(0, fsteps[-1])
     b = rng.randrange(a + 1, min(fsteps[-1], a + 7) + 1)
     rev = rng.random() < 0.5
